@@ -369,6 +369,20 @@ func execSlinkAt(f []string, now int64) string {
 	if slMod == nil {
 		slMod = mod_secure_link.VerifNew()
 	}
+	switch histMode {
+	case "load":
+		if f[0] == "1" {
+			accSlink[product] = rfs
+		} else {
+			accSlink["other"] = rfs
+		}
+		return "parsed"
+	case "req":
+		if f[0] != "1" {
+			req.Route.Product = "other"
+		}
+		return render(slMod.Run(req))
+	}
 	ver := curVersion
 	cf := &mod_secure_link.DataFile{Version: &ver, Config: mod_secure_link.ProductRulesFile{}}
 	if f[0] == "1" {
